@@ -319,7 +319,7 @@ fn spawn_worker(engine: &str, exe: &Option<String>) -> std::io::Result<Child> {
 /// Engines that talk over real sockets / real processes on the shared loopback interface: the one place where something the
 /// harness does not own (another process's datagram landing on a re-used ephemeral port, a scheduling stall of the whole
 /// box) can leak into an observation.
-const REAL_SOCKET_ENGINES: &[&str] = &["c03", "c05", "c06", "c09", "c12", "e2_xfer", "e2_wrap", "c07_e2", "c13_e2", "c13_e2_abort", "c14_inproc", "c14_bin", "c14_relay", "c16_wire", "c16_cfg"];
+pub const REAL_SOCKET_ENGINES: &[&str] = &["c03", "c05", "c06", "c09", "c12", "e2_xfer", "e2_wrap", "c07_e2", "c13_e2", "c13_e2_abort", "c14_inproc", "c14_bin", "c14_relay", "c16_wire", "c16_cfg"];
 
 /// Runs the cells; for real-socket engines every cell that reported a violation is run a second time (fresh worker
 /// process) and only violations that occur in BOTH runs (same property, clause and facts) are reported — "the same
@@ -455,6 +455,53 @@ fn run_cells_once(engine: &str, cells: Vec<Value>, opts: &PoolOpts) -> Vec<Optio
         let _ = h.join();
     }
     Arc::try_unwrap(results).map(|m| m.into_inner().unwrap()).unwrap_or_default()
+}
+
+/// Gives this process a network namespace of its own (own loopback interface, own port space): nothing another shard or
+/// any other process on the machine sends can reach its sockets, and its datagrams reach nobody else. Children (tftpd,
+/// tftpc) inherit it. Returns false (and changes nothing) where the kernel does not allow it; the checks then run on
+/// the shared loopback as before, protected by reproduce-before-report.
+pub fn isolate_network() -> bool {
+    #[repr(C)]
+    struct IfReq {
+        name: [u8; 16],
+        flags: i16,
+        pad: [u8; 22],
+    }
+    if std::env::var("VERIF_NO_NETNS").is_ok() {
+        return false;
+    }
+    unsafe {
+        if libc::unshare(libc::CLONE_NEWNET) != 0 {
+            return false;
+        }
+        let fd = libc::socket(libc::AF_INET, libc::SOCK_DGRAM, 0);
+        let mut ok = fd >= 0;
+        if ok {
+            let mut r = IfReq { name: [0; 16], flags: 0, pad: [0; 22] };
+            r.name[0] = b'l';
+            r.name[1] = b'o';
+            ok = libc::ioctl(fd, 0x8913, &mut r as *mut IfReq) == 0;
+            if ok {
+                r.flags |= (libc::IFF_UP | libc::IFF_RUNNING) as i16;
+                ok = libc::ioctl(fd, 0x8914, &mut r as *mut IfReq) == 0;
+            }
+            libc::close(fd);
+        }
+        if !ok {
+            // a namespace without a working loopback is useless: say so loudly (every socket operation would fail)
+            eprintln!("verif: network namespace created but its loopback could not be brought up");
+            std::process::exit(3);
+        }
+        // wait until ::1 is usable too (address assignment is asynchronous on some kernels)
+        for _ in 0..200 {
+            if std::net::UdpSocket::bind("[::1]:0").is_ok() {
+                break;
+            }
+            std::thread::sleep(Duration::from_millis(5));
+        }
+        true
+    }
 }
 
 /// Child side: read one JSON cell per line, write one JSON result per line.
